@@ -239,9 +239,11 @@ def _tree_shard(sh: Dict[str, Any]) -> Dict[str, Any]:
 
 
 # ------------------------------------------------------------------ thread hops
-def hop_case(depth: int, observe_from: int) -> Optional[str]:
-    """main task -> to_thread.run_sync(s1) -> from_thread.run(a1) -> to_thread.run_sync(s2) ... `depth` hops;
-    the innermost parks.  observe_from 0: another Trio task extracts the main task;
+def hop_case(depth: int, observe_from: int, root: str = "task") -> Optional[str]:
+    """root "task":    main task -> to_thread.run_sync(s1) -> from_thread.run(a1) -> to_thread.run_sync(s2) ... `depth` hops;
+    root "foreign":  a thread that is NOT a Trio worker -> from_thread.run(a1, trio_token=...) -> to_thread.run_sync(s2)
+                     -> from_thread.run(a3) ... `depth` hops (depth >= 1); what is extracted is the foreign thread.
+    The innermost level parks.  observe_from 0: another Trio task extracts the root;
     1: the innermost function extracts it from where it runs (thread or Trio side)."""
     import trio
     import trio.testing
@@ -250,17 +252,22 @@ def hop_case(depth: int, observe_from: int) -> Optional[str]:
     release = threading.Event()
     parked = threading.Event()
 
+    foreign = root == "foreign"
+
+    def is_sync(k: int) -> bool:
+        return (k % 2 == 1) != foreign
+
     def expected_names() -> List[str]:
-        names = ["main"]
+        names = ["foreign_main" if foreign else "main"]
         for k in range(1, depth + 1):
-            names.append(f"sync_level" if k % 2 == 1 else "async_level")
+            names.append("sync_level" if is_sync(k) else "async_level")
         return names
 
     def observe(tag: str) -> None:
         with warnings.catch_warnings(record=True) as w:
             warnings.simplefilter("always")
             try:
-                box["stack"] = stackscope.extract(box["main_task"], recurse_child_tasks=False)
+                box["stack"] = stackscope.extract(box["foreign_thread"] if foreign else box["main_task"], recurse_child_tasks=False)
             except Exception as ex:
                 box["raised"] = repr(ex)
         box["warnings"] = [str(x.message)[:200] for x in w]
@@ -302,9 +309,19 @@ def hop_case(depth: int, observe_from: int) -> Optional[str]:
             return
         await trio.to_thread.run_sync(sync_level, 1)
 
+    def foreign_main(token: Any) -> None:
+        trio.from_thread.run(async_level, 1, trio_token=token)
+
+    async def start_foreign() -> None:
+        t = threading.Thread(target=foreign_main, args=(trio.lowlevel.current_trio_token(),), daemon=True)
+        box["foreign_thread"] = t
+        t.start()
+        while t.is_alive():
+            await trio.sleep(0.001)
+
     async def outer() -> None:
         async with trio.open_nursery() as n:
-            n.start_soon(main)
+            n.start_soon(start_foreign if foreign else main)
             if observe_from == 0:
                 while not parked.is_set():
                     await trio.sleep(0.001)
@@ -352,13 +369,16 @@ def _hop_shard(sh: Dict[str, Any]) -> Dict[str, Any]:
     samples: List[Any] = []
 
     def harness(e: Engine) -> None:
+        root = ["task", "foreign"][e.choice("root", 2)]
         d = e.choice("alternation_depth", sh["maxdepth"] + 1)
+        if root == "foreign" and d == 0:
+            e.assume(False)
         o = e.choice("observe_from", 2)
-        why = hop_case(d, o)
+        why = hop_case(d, o, root)
         if len(samples) < 1:
-            samples.append({"hops": d, "observe_from": o})
-        if why and len(cex) < 3:
-            cex.append({"hops": d, "observe_from": o, "why": why, "f2": False})
+            samples.append({"hops": d, "observe_from": o, "root": root})
+        if why and len(cex) < 6:
+            cex.append({"hops": d, "observe_from": o, "root": root, "why": why, "f2": False})
 
     eng = Engine(max_seconds=600)
     eng.explore(harness)
@@ -376,7 +396,7 @@ def run(rep: Any, tier: str, seed: int) -> None:
     cap = len(shapes)
     rep.bounds = {"task trees": f"depth <= {depth}, fan-out <= {fan}, <= {nmax} nested nurseries per task, children from the {caps[0]} smallest sub-shapes, nurseries from the first {caps[1]} child multisets: {len(shapes)} shapes",
                   "blocking point": "innermost body or any nursery's __aexit__", "nursery body endings": BODY_ENDS,
-                  "recurse_child_tasks": [False, True], "hop chains": f"alternation depth 0..{3 if tier == 'quick' else 5}, observed by another task and by the innermost level"}
+                  "recurse_child_tasks": [False, True], "hop chains": f"alternation depth 0..{3 if tier == 'quick' else 5}, rooted in a Trio task or in a foreign thread calling from_thread.run(trio_token=...), observed by another task and by the innermost level"}
     rep.outside = ["trees beyond the bounds", "tasks blocked anywhere other than an Event wait / a nursery __aexit__", "free-running threads (every thread is parked)",
                    "Trio versions other than the installed one"]
     rep.assumptions = ["low solver leverage: finite shape product certified complete by the solver",
@@ -393,7 +413,7 @@ def run(rep: Any, tier: str, seed: int) -> None:
 
 def replay(c: Dict[str, Any]) -> Dict[str, Any]:
     if "hops" in c:
-        why = hop_case(c["hops"], c["observe_from"])
+        why = hop_case(c["hops"], c["observe_from"], c.get("root", "task"))
         return {"status": "reproduces" if why else "not-reproduced", "detail": why}
     d, f, n, c1, c2 = c["bounds"]
     r = tree_case(task_shapes(d, f, n, c1, c2)[c["tree"]], c["body_end"], c["recurse"])
